@@ -1,7 +1,7 @@
 (* C10 — length, count, value, match and search behave as RFC 9535 defines.  Statements only. *)
 From Coq Require Import List NArith ZArith Bool.
 From JP Require Import Base Ast Eval ValueModel Spec Known WellFormed Regex Entry DataFacts SelFacts
-  ValueFacts Refine RegexFacts RegexSem.
+  ValueFacts Refine RegexFacts RegexSem Build Purity GenParse GenBuild FragParse FilterParse FilterBuild StringLevel.
 Import ListNotations.
 
 (* length(): Unicode scalar values of a string, elements of an array, members of an object,
@@ -75,6 +75,38 @@ Theorem C10_search_is_substring_membership : forall p s,
   rx_spec_sub p s = true <-> exists r, re_parse p = PValid r /\ exists i j : nat, (i <= length s)%nat /\ M s r i j.
 Proof. exact rx_spec_sub_sem. Qed.
 Print Assumptions C10_search_is_substring_membership.
+
+
+(* string level, end to end: the TEXT of a filter whose expression calls the functions -- length / count / value
+   inside comparisons, match / search (literal pattern) as tests, with literals, queries and nested calls as
+   arguments, combined with !, &&, ||, parentheses and nested filters to any depth -- goes through the generated
+   grammar, the typing of parser.rs / model.rs, and the evaluator, and keeps exactly the children on which the
+   RFC 9535 value of the expression (with the RFC definitions of the five functions, rfc_length etc.) holds *)
+Theorem C10_string_level_calls : forall n (e : list (list (xatom (SelT n)))) (d : json),
+  eok (SelT n) (sokT n) e -> egood (SelT n) (sgoodT lit_arg n) (sastT n) lit_arg e -> wf_json d = true ->
+  let f := or_ast (SelT n) (sastT n) e in
+  exists ps,
+    api_with_path (36%N :: 91%N :: filter_text (SelT n) (stextT n) e ++ [93%N]) d
+      = Some (map (fun p => (inner p, path p)) ps)
+    /\ map node_of ps
+       = List.filter (fun c => r_holds rx_spec_full rx_spec_sub jeqb false d f (snd c)) (children ([], d)).
+Proof. exact filter_children_in_order. Qed.
+Print Assumptions C10_string_level_calls.
+
+(* $[?length(@.a)>=2&&match(@.b,'x.*')||count(@.. * )==value($[0].n)]  on three objects *)
+Example C10_string_level_example :
+  let e : list (list (xatom (SelT 0))) :=
+    [[XCmp _ OpGe (XCF _ (XFn1 _ FLength (XAQuery _ false [GShort _ [97]%N]))) (XCB _ (XCLit (XInt 2%Z)));
+      XFnTest _ false (XFn2 _ FMatch (XAQuery _ false [GShort _ [98]%N]) (XALit _ (XStr [120; 46; 42]%N)))];
+     [XCmp _ OpEq (XCF _ (XFn1 _ FCount (XAQuery _ false [GDescWild _])))
+                  (XCF _ (XFn1 _ FValue (XAQuery _ true [GBracket _ (FIndex 0%Z) []; GShort _ [110]%N])))]] in
+  let a := [97]%N in let b := [98]%N in let n := [110]%N in
+  let d := JArr [JObj [(a, JStr [104; 105]%N); (b, JStr [120; 121]%N); (n, JNum (NInt 3))];
+                 JObj [(a, JStr [104]%N); (b, JStr [120]%N)];
+                 JObj [(a, JArr [JNum (NInt 1)]); (b, JStr [121]%N)]] in
+  option_map (map snd) (api_with_path (36%N :: 91%N :: filter_text (SelT 0) (stextT 0) e ++ [93%N]) d)
+  = Some [[36; 91; 48; 93]%N; [36; 91; 50; 93]%N].
+Proof. vm_compute. reflexivity. Qed.
 
 (* the anchoring example of the former defect D4, and the unbalanced pattern of D24 *)
 Example C10_regex_examples :
